@@ -32,7 +32,7 @@ claim('C18', 'Verus contracts on Stack<T> (exact length effects, 65535 limit => 
       V + ': every Stack op has its exact effect on the abstract sequence, the size limit turns into OUT OF MEMORY, the variable pool is limited and frees defaults, ON...GOSUB without a branch leaves nothing. Statements whose code generation is not under contract are not decided.',
       'DESIGN.md §7 C18')
 claim('C02', 'Kani function contracts over all 2^32 Integer operand pairs / all float bit patterns + Verus contracts on operator wrappers, precedence tables and typed store',
-      'Kani (CBMC) proofs of kani::ensures contracts spliced onto the real Operation / Function / TryFrom functions: every Integer x Integer arm exact or OVERFLOW, relationals exactly 0 / -1, bitwise tables, float-to-integer conversions (floor, range) for every bit pattern, INT / FIX / SGN / CSNG / CDBL / ABS / unary minus for all three numeric types. ' + V + ': logical operators, \\ and MOD for every operand type through the conversion contract, relational wrappers, the 13-level precedence tables against the manual, operator-to-AST mapping, assignment conversion (Var::store). Not decided: float + - * / values, String x String arms, the recursive precedence-climbing loop itself.',
+      'Kani (CBMC) proofs of kani::ensures contracts spliced onto the real Operation / Function / TryFrom functions: every Integer x Integer arm exact or OVERFLOW, relationals exactly 0 / -1, bitwise tables, float-to-integer conversions (floor, range) for every bit pattern, INT / FIX / SGN / CSNG / CDBL / ABS / unary minus for all three numeric types. ' + V + ': logical operators, \\ and MOD for every operand type through the conversion contract, relational wrappers, the 13-level precedence tables against the manual, operator-to-AST mapping, assignment conversion (Var::store). Not decided: float + - * / values, String x String arms. The recursive precedence-climbing parser (descend) is proved to build exactly the tree of the grammar spec `climb`, and lemmas over `climb` show: any two binary operators group by the 13-level table with equal levels to the left, unary minus at level 12, NOT at level 6.',
       'DESIGN.md §7 C02')
 claim('C03', 'Verus built-in obligations (overflow, bounds, unwrap, callee preconditions, termination measures) of every function under contract',
       V + ': every lexer scanner loop terminates and consumes at least one character (the 1EE hang fails exactly this obligation), Stack / Var / Link / Listing / VM handlers under contract cannot panic, listing edits survive live snapshots (Arc::make_mut), interrupt always reaches the Interrupt state. Only for the functions listed in evidence.coverage.functions_under_contract.',
@@ -47,9 +47,11 @@ claim('C11', 'Verus contracts on TAB / SPC / POS (14-column zone arithmetic) and
 claim('C20', 'Verus contracts on symbol allocation and symbolic branch emission in the linker, and on direct-line entry',
       V + ': every branch is emitted against a symbol (the line number itself for GOTO / GOSUB / RESTORE / RUN, a fresh negative symbol for local labels), symbols record (code, data) positions, local symbols are fresh, a direct line is compiled after the program without touching it. The re-basing loop of Link::append and the resolution loop of Link::link iterate std maps by value and are assumed, not proved.',
       'DESIGN.md §7 C20')
+claim('C07', 'Verus contracts on LEN / SPC / the 255-character store limit + bounded Kani harnesses for LEFT$ / RIGHT$ / MID$',
+      V + ': LEN counts characters, SPC(n) is n spaces or OVERFLOW, a stored string has at most 255 characters (STRING TOO LONG otherwise, also for DEFSTR-typed names). BOUNDED stand-in (Kani, labelled bounded in the evidence, never counted as proved): LEFT$, RIGHT$ and two-argument MID$ on the fixed strings "", "a", "ab", "e-acute", "a e-acute" for every length / position in {-1..5, 254, 255, 256, 32766, 32767} return exactly the documented characters. Not decided: INSTR, three-argument MID$, MID$ assignment, STR$/VAL/HEX$/OCT$, comparison (str slicing results are unspecified in this vstd; CBMC aborts on the larger harnesses).',
+      'DESIGN.md §7 C07')
 na('C05', 'Relates lex, Display for Token/Line and lex again; Display output reached through to_string() is an uninterpreted string in Verus and Kani does not finish on 2-character strings (measured): no contract within reach can state it over the real code. See DESIGN.md §7 C05.')
 for _p, _r in [
-    ('C07', 'only LEN and SPC are under contract so far; LEFT$/RIGHT$/MID$ need the UTF-8 slicing model of vstd (no source available here), INSTR uses closure adapters: not claimed'),
     ('C14', 'only the RENUM guards (ILLEGAL DIRECT, compile errors, dirty flag) are under contract; the change-map loop and the textual splice are not: not claimed'),
     ('C16', 'the lexer unit proves termination and panic-freedom only; case-insensitivity of the scanners is a relational property that needs a spec of the literal grammar (not built): not claimed'),
     ('C19', 'the link-time diagnostics are produced inside Link::link / link_whiles, which iterate std maps by value (no Verus iterator specification): only the recording of columns at emission is under contract: not claimed'),
